@@ -35,7 +35,6 @@ NOT_APPLICABLE = {
     'C31': 'same as C30 (propagation over std containers and set merging).',
     'C32': "ConcurrentVector's sequential API is ~1300 lines of iterator/std-algorithm code (`std::move`, `move_backward` on custom iterators); only its index arithmetic is extractable and that is claimed under C33.",
     'C35': 'check not built yet (contracts designed in DESIGN.md section 5, proof not closed in this framework yet)',
-    'C36': 'planned (DESIGN section 5) but not built: the rely the owner needs for its CAS-free pop is a history property (a thief may still act on a bottom value read before the owner\'s decrement, but only for the position that was top at that time); the encoding with a largest-bottom-since-top-changed ghost was designed (DESIGN 9.6) and not completed; under A-SC the seq_cst fences are invisible, so the only seeded change produced for it (a weakened fence) would need a memory-order discipline check, not the R/G proof.',
     'C37': 'copy constructor loops to `buffersSize_` | arena with 3 buffers | loop to `buffersPos_` | **run** (ASan): SEGV in `memcpy` copying an arena with 3 buffers',
     'C39': 'check not built yet (contracts designed in DESIGN.md section 5, proof not closed in this framework yet)',
     'C40': '`OpResult(OpResult&&)` / move-assign: `oth.ptr_ = nullptr` without destroying | any engaged source | destroy the moved-from object before disengaging | **run**: one lifetime-counted object still live after both OpResults are destroyed',
@@ -362,3 +361,19 @@ CLAIMED['C33'] = dict(
          "its C44 contract. NOT decided: element construction, iterator/reference validity, cached pointers, the spin-wait for a peer's allocation (progress), shrink/clear and the sequential "
          "API (C32). The single-index path sizes bucket 1 at twice its capacity when triggered from bucket 0 (generous, noted, harmless).",
     technique="CBMC DFCC function contracts over extracted bodies, ghost bucket index and probe ghosts for the buffer table, constant-bounded loop unwinding")
+
+CLAIMED['C36'] = dict(
+    category='proof',
+    text="Rely/guarantee contracts (CBMC DFCC) on the extracted bodies of ChaseLevDeque::try_push, try_pop, try_pop_into (owner role: thieves may advance top_ before every atomic access), "
+         "try_steal, try_steal_into (thief role: the owner may push/pop and other thieves may steal before every atomic access and before every slot read), empty, size and the slot index "
+         "computation, with top_ and bottom_ fully symbolic. History ghost g_bsince = the largest bottom_ published since top_ last changed: the rely lets a thief take a position only if "
+         "bottom_ was above it at some moment since top_ took that value, and every successful CAS on top_ in the verified code asserts exactly that (closure). Obligations: bottom_ is written "
+         "by the owner only; top_ advances by one per successful CAS; top_-1 <= bottom_ <= top_+Capacity always and top_ <= bottom_ between operations; push publishes the element at the old "
+         "bottom_ with release and never holds more than Capacity; the owner's pop takes the newest position either through the CAS on top_ or without it, and then only when no thief can still "
+         "reach that position (top_ strictly below it, so that top_ must change - forgetting every stale bottom_ - before getting there); a steal hands out the element that was in place at the "
+         "position it took; quiescent: pop and steal succeed iff non-empty, push iff not full, pop returns the newest and steal the oldest element.",
+    note="A-SC: the proof itself is blind to orderings weaker than SC; the memory-order DISCIPLINE is checked instead (seq_cst fence between the owner's lowering store of bottom_ and its load of "
+         "top_ in both pops and between a thief's loads of top_ and bottom_, release on the publishing store, seq_cst CASes, acquire thief loads) - this is what catches a weakened fence. The "
+         "relies (specs/c36_chaselev.c) and the R/G meta-theorem are trusted; exactly-once = one CAS winner per position (RMW axiom) + the obligations above; single owner as documented; "
+         "capacities 2 and 4 (16 thorough); positions below 2^60.",
+    technique="CBMC DFCC function contracts, rely/guarantee via interference before each atomic macro and slot read, history ghost for stale reads, memory-order discipline ghosts")
